@@ -33,6 +33,7 @@ RULE += (' Also: sync() of classes (plain, and with instances that have an async
 RULE += (' Also: plain callables presenting themselves as the coroutine function they wrap (functools.wraps / __wrapped__) and returning plain values.')
 RULE += (' Also: items / results that merely expose an __await__ attribute (not awaitable); concurrent.futures.Future results.')
 RULE += (' Also: any_iter over objects offering both iteration protocols.')
+RULE += (' Also: generator-based coroutines as awaitables of await_each; non-awaitable elements (TypeError when reached).')
 ASSUMPTIONS = ["direct specification oracle (no stdlib twin exists for these helpers)"]
 EXHAUSTIVE = {"quick": True, "thorough": True}
 MAX_SHARDS = 8
@@ -57,6 +58,8 @@ def cases(tier, seed, shard, nshards):
                     idx += 1
                     if idx % nshards == shard:
                         yield {"kind": "await_each", "n": n, "steps": steps, "susp": susp, "cont": cont}
+                        for aw_kind in ("legacy", "mixed", "bad"):
+                            yield {"kind": "await_each", "n": n, "steps": steps, "susp": susp, "cont": cont, "aw_kind": aw_kind}
     for n in range(0, 6):
         for npos in range(0, n + 1):
             for susp in (0, 1):
@@ -502,7 +505,23 @@ def run_await_each(case, stats):
         events.append(("done", i))
         return items[i]
 
-    coros = [aw(i) for i in range(n)]
+    import types
+
+    @types.coroutine
+    def legacy(i):
+        # a generator-based coroutine (``@types.coroutine``): a legal operand of ``await`` that ``collections.abc.Awaitable``
+        # does not recognise - what can be awaited is decided by ``await``, not by an isinstance test
+        events.append(("await", i))
+        if case["susp"]:
+            yield from Suspend(("aw", i), case["susp"]).__await__()
+        events.append(("done", i))
+        return items[i]
+
+    kind = case.get("aw_kind", "coro")
+    coros = [legacy(i) if kind == "legacy" or (kind == "mixed" and i % 2) else aw(i) for i in range(n)]
+    if kind == "bad" and n:
+        coros[n - 1].close()
+        coros[n - 1] = items[n - 1]  # NOT awaitable: reaching it is a TypeError, like ``await`` of any such object
     drawn = []
 
     def feed():
@@ -522,15 +541,25 @@ def run_await_each(case, stats):
             except StopAsyncIteration:
                 got.append("STOP")
                 break
+            except TypeError:
+                got.append("TypeError")
+                break
         await it.aclose()
 
     drive(main())
     want_events = []
+    want = []
     for step in range(case["steps"]):
         want_events.append(("step", step))
         if step < n:
+            if kind == "bad" and step == n - 1:
+                want.append("TypeError")
+                break
             want_events += [("await", step), ("done", step)]
-    want = list(items[:case["steps"]]) + (["STOP"] if case["steps"] > n else [])
+            want.append(items[step])
+        else:
+            want.append("STOP")
+            break
     viols = []
     if events != want_events:
         viols.append({"key": "await_each/laziness", "msg": f"await_each {case}: events {events}, expected {want_events}"})
@@ -539,13 +568,20 @@ def run_await_each(case, stats):
     # what the consumer never asked for still belongs to the caller: not drawn from its iterator, not closed
     import inspect
     left = coros[min(case["steps"], n):]
-    spoiled = [i for i, c in enumerate(left, min(case["steps"], n)) if inspect.getcoroutinestate(c) != inspect.CORO_CREATED]
+    def untouched(c):
+        if inspect.iscoroutine(c):
+            return inspect.getcoroutinestate(c) == inspect.CORO_CREATED
+        if inspect.isgenerator(c):
+            return inspect.getgeneratorstate(c) == inspect.GEN_CREATED
+        return True
+    spoiled = [i for i, c in enumerate(left, min(case["steps"], n)) if not untouched(c)]
     if spoiled or len(drawn) > case["steps"]:
         viols.append({"key": "await_each/touches-what-was-not-asked-for",
                       "msg": f"await_each {case}: after {case['steps']} steps and aclose(): awaitables {spoiled} were started or "
                              f"closed, {len(drawn)} were drawn from the caller's iterator"})
     for c in left:
-        c.close()
+        if hasattr(c, "close"):
+            c.close()
     if CTX.foreign:
         viols.append({"key": "await_each/foreign-suspension", "msg": CTX.foreign[0]})
     stats["await_each_runs"] += 1
